@@ -7,6 +7,7 @@ import Driver.C02
 import Driver.C18
 import Driver.C08
 import Driver.C06
+import Driver.C17
 
 def main (args : List String) : IO UInt32 := do
   match args with
@@ -19,4 +20,5 @@ def main (args : List String) : IO UInt32 := do
   | ["c18"] => Driver.C18.run; return 0
   | ["c08"] => Driver.C08.run; return 0
   | ["c06"] => Driver.C06.run; return 0
+  | ["c17"] => Driver.C17.run; return 0
   | _ => IO.eprintln "usage: bufmodel <property-protocol>"; return 2
